@@ -249,6 +249,23 @@ func (iw *vpImgWorld) flushRows(rows []vpRowSpec) int {
 	return before
 }
 
+// flushRowsInto: as flushRows, against whatever MetaStore the engine is configured with.
+func (iw *vpImgWorld) flushRowsInto(rows []vpRowSpec) {
+	maps := make([]map[string]any, len(rows))
+	for i, r := range rows {
+		maps[i] = r.toMap()
+	}
+	bufs := map[string]*partitionBuffer{}
+	var waiters []chan error
+	rc, bc := 0, 0
+	var started time.Time
+	d := make(chan error, 2)
+	vpSetClock(2)
+	iw.b.processIngestRequest(context.Background(), &ingestRequest{rows: maps, doneChan: d}, bufs, &waiters, &rc, &bc, &started)
+	iw.b.handleFlush(context.Background(), flushRequest{partitionBuffers: bufs, doneChans: waiters})
+	vpAssert(len(d) == 1 && <-d == nil, "C06: a fault-free flush was not acknowledged nil")
+}
+
 func (iw *vpImgWorld) metadataOf(id int) *FileMetadata {
 	for i := range iw.meta.files {
 		if vpFileID(iw.meta.files[i].PointerBytes) == id {
@@ -330,3 +347,6 @@ func vpSameMultiset(a, b []string) bool {
 	}
 	return true
 }
+
+// a constant 5-byte filter section (file images with fully concrete bytes)
+func vpEncodeSectionConst(f *BloomFilters) ([]byte, error) { return []byte{9, 2, 3, 4, 5}, nil }
